@@ -746,6 +746,65 @@ def _leg_shapes(chunk, st: Stats, leg_id):
             st.sample(make_case(*args))
 
 
+# ---------------------------------------------------------------- leg D: the result depends on nothing but its arguments
+PARTIAL_T4 = [None, {}, {"novelty_cap_per_node": 0.125}, {"churn_cap_edges": 1}, {"delta_norm_cap_l2": 0.25},
+              {"cooldowns": {"EditGraph": 3}}, {"novelty_cap_per_node": 1.0, "delta_norm_cap_l2": 1e9}]
+POISON_T4 = [{"novelty_cap_per_node": 0.0009765625, "delta_norm_cap_l2": 0.0009765625, "churn_cap_edges": 0, "cooldowns": {"EditGraph": 9, "Speak": 9}},
+             {"novelty_cap_per_node": 1.0, "delta_norm_cap_l2": 1e9, "churn_cap_edges": 64, "cooldowns": {}}]
+
+
+def _raw_ctx(t4, turn=5):
+    """a context whose t4 section is partial or absent (a hand-built Config / test context; missing keys take the
+    documented defaults 1.5 / 0.3 / 64 / no cooldowns)"""
+    cfgobj = Config() if t4 is None else Config(t4=copy.deepcopy(t4))
+    if t4 is None:
+        try:
+            delattr(cfgobj, "t4")
+        except Exception:
+            cfgobj.t4 = None
+    return NS(turn_id=turn, agent_id="A", config=cfgobj, cfg=cfgobj)
+
+
+def _leg_history(chunk, st: Stats):
+    """Every (earlier call's t4 section) x (this call's partial/absent t4 section) x plan: the outcome must be the documented
+    pipeline under the documented defaults for the missing keys, whatever was filtered before in this process."""
+    items = [(TARGETS[1], 0.25, 0), (TARGETS[3], -1.0, 0), (TARGETS[1], 4.0, None), (TARGETS[0], 0.5, 1)]
+    for poison_i, partial_i, ms in chunk:
+        deltas = tuple(items[i] for i in ms)
+        t4 = PARTIAL_T4[partial_i]
+        eff = dict(DEFAULT_CAPS)
+        cds = {}
+        if t4:
+            eff["nov"] = t4.get("novelty_cap_per_node", eff["nov"])
+            eff["l2"] = t4.get("delta_norm_cap_l2", eff["l2"])
+            eff["churn"] = t4.get("churn_cap_edges", eff["churn"])
+            cds = dict(t4.get("cooldowns", {}))
+        op_specs = ("EditGraph", "Speak")
+        last = {"EditGraph": 4}
+        e = reference(deltas, op_specs, cds, last, 5, eff["nov"], eff["l2"], eff["churn"])
+        pds = [ProposedDelta(target_kind=t[0], target_id=t[1], attr=t[2], delta=v, op_idx=o, idx=i) for i, (t, v, o) in enumerate(deltas)]
+        plan = build_plan("plan", [build_op(x) for x in op_specs], list(pds))
+        try:
+            if poison_i is not None:
+                call_impl(_raw_ctx(POISON_T4[poison_i]), build_state("dict", last), plan)
+            res = call_impl(_raw_ctx(t4), build_state("dict", last), plan)
+        except Exception as ex:
+            st.violation("history:raises:%s" % type(ex).__name__, "t4_filter raised %r for partial t4 section %r" % (ex, t4),
+                         {"kind": "history", "poison": poison_i, "partial": partial_i, "ms": list(ms)})
+            continue
+        st.add("transitions", 2 if poison_i is not None else 1)
+        st.add("validated")
+        st.add("history_cases")
+        st.distinct("states", (13 << 44) | (hash((poison_i, partial_i, ms)) & 0xFFFFFFFF))
+        found = envelope(res, e, {d[0] for d in deltas}, eff["nov"], eff["l2"], eff["churn"]) + [f for f in compare(res, e, eff) if f[0] != "ref:metrics"]
+        st.distinct("outcomes", ("history", bool(found), len(res[0])))
+        if found and not e.absorbing:
+            st.violation("history:partial-t4:%s" % ("after-other-call" if poison_i is not None else "first-call"),
+                         "t4 section %r (missing keys = documented defaults)%s: %s: %s" % (
+                             t4, "" if poison_i is None else " after a call with t4=%r" % (POISON_T4[poison_i],), found[0][0], found[0][1]),
+                         {"kind": "history", "poison": poison_i, "partial": partial_i, "ms": list(ms)})
+
+
 # ---------------------------------------------------------------- driver
 def run(run: Run) -> None:
     if not callable(getattr(t4mod, "t4_filter", None)):
@@ -834,6 +893,11 @@ def run(run: Run) -> None:
     run.pmap(_leg_shapes, list(enumerate(c_cases)), extra=(9,), chunks=NCHUNKS)
     run.notes["legC_cases"] = len(c_cases)
 
+    # ---- leg D: history independence with partial / absent t4 sections ---------------------------
+    d_cases = [(po, pa, ms) for po in (None, 0, 1) for pa in range(len(PARTIAL_T4)) for ms in multisets(range(4), 3)]
+    run.pmap(_leg_history, d_cases, chunks=8)
+    run.notes["legD_cases"] = len(d_cases)
+
     run.rule = (
         "A (no ops): %s; caps alphabet novelty {2^-20,0.3,1}, L2 {2^-10,0.3,1.5,1e9%s}, churn {0,1,2,64}.  "
         "B: every ops list of <=2 ops over {Speak,EditGraph,CreateGraph,dict-op} (21) x 7 cooldown menus x last-turn "
@@ -864,6 +928,10 @@ def run(run: Run) -> None:
 
 
 def replay(case):
+    if case.get("kind") == "history":
+        st = Stats()
+        _leg_history([(case["poison"], case["partial"], tuple(case["ms"]))], st)
+        return [(sg, w) for sg, (w, _c) in st.viol.items()]
     deltas = tuple(((d[0], d[1], d[2]), float(d[3]), d[4]) for d in case["deltas"])
     caps = {"nov": float(case["caps"]["nov"]), "l2": float(case["caps"]["l2"]), "churn": int(case["caps"]["churn"])}
     cds = {str(k): int(v) for k, v in case["cooldowns"].items()}
